@@ -128,6 +128,43 @@ def run(ctx, rep):
         _loop.run_all(ctx, rep, "C17", pred, 3, 20, force=dict(keep_history=False, opt_mode="none"), model=False)
     finally:
         LT.run_trace = orig
+    restart_history(ctx, rep)
+
+
+def restart_history(ctx, rep):
+    """fit() called again on the same optimizer: "one entry per executed generation" counts every generation the object has executed, and the
+    entries the caller has already read (the stats object and its snapshots) are not altered by the second run"""
+    import copy
+    import thefittest.optimizers as O
+    plans = [("GeneticAlgorithm", dict(str_len=7)), ("SelfCGA", dict(str_len=7)), ("SHAGA", dict(str_len=7)),
+             ("DifferentialEvolution", dict(left_border=-2.0, right_border=2.0, num_variables=2)), ("jDE", dict(left_border=-2.0, right_border=2.0, num_variables=2)),
+             ("SHADE", dict(left_border=-2.0, right_border=2.0, num_variables=2)), ("PDPGA", dict(str_len=7))]
+    for kind, kw in plans[: ctx.pick(7, 7)]:
+        seed, pop, iters = ctx.rng.randrange(1 << 30), ctx.rng.choice([7, 8]), ctx.rng.choice([3, 4])
+        gens = []
+
+        def f(X, gens=gens):
+            gens.append(len(X))
+            return np.asarray(X, dtype=np.float64).sum(axis=1)
+        opt = getattr(O, kind)(f, iters=iters, pop_size=pop, keep_history=True, random_state=seed, **kw)
+        opt.fit()
+        st1 = opt.get_stats()
+        snap1 = {k: copy.deepcopy(list(v)) for k, v in st1.items()}
+        n1 = len(gens)
+        opt.fit()
+        st2 = opt.get_stats()
+        rep.traces += 2
+        rep.count("restart-history", (kind, seed))
+        case = dict(kind=kind, random_state=seed, pop_size=pop, iters=iters, fits=2)
+        executed = len(gens)
+        short = {k: len(v) for k, v in st2.items() if len(v) != executed}
+        if short:
+            rep.problem("history", f"{kind} fitted twice: {executed} generations were executed, recorded series lengths {short}", case, "history-length", True,
+                        short, executed, "C17")
+        altered = [k for k in snap1 if len(st2.get(k, [])) < len(snap1[k]) or not all(L.same(a, b) for a, b in zip(snap1[k], st2[k]))]
+        if altered or any(len(st1.get(k, [])) < n1 for k in snap1):
+            rep.problem("history", f"{kind} fitted twice: entries the caller had already read were altered / removed by the second run ({altered[:3]})", case,
+                        "history-snapshot-altered", True, None, None, "C17")
 
 
 def replay(ctx, rp):
